@@ -62,20 +62,20 @@ type Op struct {
 	Op     string  `json:"op"` // reconcile | refresh | kubelet | edit | worker
 	Faults []Fault `json:"faults,omitempty"`
 	// RefreshOnConflict: the set informer catches up between the attempts of a status write
-	RefreshOnConflict bool     `json:"refresh_on_conflict,omitempty"`
+	RefreshOnConflict bool `json:"refresh_on_conflict,omitempty"`
 	// Notify (refresh): deliver the informer events of what changed in the cache to the handlers the controller registered
 	Notify bool `json:"notify,omitempty"`
 	// On (outage): every API call of a reconcile fails with an internal error while the outage is on
 	On bool `json:"on,omitempty"`
 	// Max (drain): at most this many work items
-	What              string   `json:"what,omitempty"`  // refresh: all|set|pods|claims
-	Only              []string `json:"only,omitempty"`  // refresh pods: only these names
-	Pod               string   `json:"pod,omitempty"`   // kubelet
-	Ev                string   `json:"ev,omitempty"`    // kubelet: run|ready|unready|fail|succeed|gone|start
-	Field             string   `json:"field,omitempty"` // edit: replicas|slots|pause|tmpl|partition|delete|policy|strategy
-	Int               *int64   `json:"int,omitempty"`
-	Str               *string  `json:"str,omitempty"`
-	Max               int      `json:"max,omitempty"`
+	What  string   `json:"what,omitempty"`  // refresh: all|set|pods|claims
+	Only  []string `json:"only,omitempty"`  // refresh pods: only these names
+	Pod   string   `json:"pod,omitempty"`   // kubelet
+	Ev    string   `json:"ev,omitempty"`    // kubelet: run|ready|unready|fail|succeed|gone|start
+	Field string   `json:"field,omitempty"` // edit: replicas|slots|pause|tmpl|partition|delete|policy|strategy
+	Int   *int64   `json:"int,omitempty"`
+	Str   *string  `json:"str,omitempty"`
+	Max   int      `json:"max,omitempty"`
 }
 
 type Scenario struct {
@@ -105,6 +105,7 @@ type Call struct {
 	RV       string   `json:"rv,omitempty"`
 	OwnerUID string   `json:"owner_uid,omitempty"`
 	Orphan   *bool    `json:"orphan,omitempty"`
+	NS       string   `json:"ns,omitempty"`    // namespace of the call when it is not the set's
 	Fault    string   `json:"fault,omitempty"` // injected fault at this call
 	Err      string   `json:"err,omitempty"`   // error reason returned to the controller
 }
@@ -234,6 +235,9 @@ func metaOf(o runtime.Object) (string, string) {
 
 func (e *env) abstract(a clienttesting.Action) Call {
 	c := Call{Verb: a.GetVerb(), Res: a.GetResource().Resource, Sub: a.GetSubresource(), Name: actionName(a)}
+	if a.GetNamespace() != ns && a.GetNamespace() != "" {
+		c.NS = a.GetNamespace() // a call that leaves the namespace of the set
+	}
 	switch x := a.(type) {
 	case clienttesting.ListAction:
 		sel := x.GetListRestrictions().Labels.String()
